@@ -7,7 +7,10 @@
    responder [path, kind ("exact" | "matching"), src [h, p] (0 = any), rport (0 any, 1 main, 2 extra),
               tmpl <<item>>, en, os (one-shot armed), freed, perm, fn (tag of the current function),
               beh (what the current function does when invoked), cnt (how often it has been invoked)]
-   behaviour [rk |-> k: the function RAISES on its k-th invocation (0: never),
+   behaviour [ar |-> how many parameters the function declares: 1..4 = a prefix of (msg, time, addr, recv_port),
+                    0 = *args; irrelevant to delivery: every matching enabled responder runs exactly once whatever
+                    prefix its function declares (no operator below looks at it),
+              rk |-> k: the function RAISES on its k-th invocation (0: never),
               acts |-> <<[op |-> "free" | "disable" | "enable", i |-> responder]>>: what it does to responders
               (itself included) from inside the callback, before it returns or raises]
    A fault in a callback is invisible to everybody else: the exception does not reach the receiver,
@@ -35,7 +38,7 @@ Fire(st, m, src, via) == SelectSeq(st.ord, LAMBDA i : Accepts(st.rs[i], m, src, 
 Entry(st, i, m, src, via) == [r |-> i, fn |-> st.rs[i].fn, a |-> m.a, args |-> m.args, src |-> src, via |-> via, tm |-> m.tag]
 Without(s, X) == SelectSeq(s, LAMBDA i : i \notin X)
 ToSet(s) == {s[k] : k \in 1..Len(s)}
-Quiet == [rk |-> 0, acts |-> <<>>]
+Quiet == [rk |-> 0, acts |-> <<>>, ar |-> 4]
 
 (* ---- operations other than Recv ---- *)
 NewResp(e) == [path |-> e.path, kind |-> e.kind, src |-> e.src, rport |-> e.rport, tmpl |-> e.tmpl,
